@@ -360,7 +360,7 @@ impl Prop for C10 {
             .to_string()
     }
     fn n_cases(&self, tier: Tier) -> u64 {
-        tier.pick(1000, 4000)
+        tier.pick(6000, 40000)
     }
     fn run_case(&self, tier: Tier, seed: u64, index: u64, w: &WCtx) -> CaseOut {
         let st = strategy(tier, index);
